@@ -11,6 +11,30 @@ CHECKS = {
  "C04": ("bounded-exhaustive + random generation; oracle = call returns (process-isolated workers with watchdog), work oracle on conditional passes",
          "Exploration with process isolation: exhaustive 3-lexeme sequences (4 in thorough), pairs x configurations in a build with debug assertions, random soup/text/mutated seeds/directive-heavy/nested/long inputs x configurations x cursor lists. A worker that aborts or stops advancing is re-run alone in a fresh process (60 s) before a violation is reported; conditional-pass count must be linear (hook).",
          "Hang oracle only for inputs <= 256 bytes; nesting deeper than 500 excluded by construction; absence of hangs/aborts is not established beyond the explored inputs."),
+ "C02": ("grammar-based random generation (proptest tapes) + layout/comment transformations; re-scan round-trip oracle against an independent reference scanner and the lexer",
+         "Exploration: grammar-derived programs in random layouts with comments and keyword-case variation, plus repository seeds, x configurations; the output must scan (independent scanner and DelphiLexer) to the same kinds and texts up to the documented normalisations.",
+         "Well-formedness is by construction from the harness grammar (DESIGN Appendix A); breadth of the grammar is reported in the evidence class histogram."),
+ "C03": ("grammar-based random generation; fixpoint oracle f(f(x)) == f(x), f^3 == f^2",
+         "Exploration: as C02 plus programs with multi-line strings, narrow widths emphasised; byte equality of successive passes.",
+         "Known finding F-C03-mlstr-child (stale child-line cache after multi-line string re-indentation) is excluded by signature and counted."),
+ "C05": ("grammar-based random generation with structural annotations; validity predicate over the output (relative indentation of marked tokens)",
+         "Exploration: the generator records every statement/member start, closer and control-flow begin with the token that starts the opener's line; the output must place each on its own line at the stated relative depth, for all widths, both begin styles, tabs and spaces.",
+         "Anonymous-routine bodies and single-statement bodies are not asserted (not in the statement). Known findings (iteration limit fall-back, anonymous routine with array-of parameter in a condition) excluded by signature."),
+ "C06": ("metamorphic relation between two generated layouts of one token vector",
+         "Exploration: pairs of renderings that differ only in free gaps (blank amounts, indentation, space <-> single line break, zero width where lexemes may touch, size of blank-line groups) with comment gaps and blank-line grouping fixed; format(r1) == format(r2).",
+         "Both renderings must scan back to the same lexemes (checked); no verbatim regions in this stream."),
+ "C08": ("bounded-exhaustive + random generation; validity predicate over output whitespace",
+         "Exploration: every 3-lexeme sequence with non-canonical separators, pairs x separators x configurations, random soup/text/mutated seeds and grammar-derived programs; the output (scanned by the independent scanner, verbatim regions / asm / multi-line tokens skipped) must satisfy the five whitespace clauses.",
+         "For arbitrary text the check is skipped when the output does not scan to the same token kinds as the input or contains toggle comments (regions cannot be located soundly); several genuine deviations are listed as known findings."),
+ "C13": ("exhaustive grid + random generation; differential against an independent reference scanner and between the AVX2 / portable routines (hook), losslessness round trip",
+         "Exploration: full product grid of word classes x lengths x pads x suffix lengths x delimiters (5.1 M cases), character sweep, random text; losslessness, constructed extents, equality with the reference scanner, and agreement of the three identifier routines with a 3-line model.",
+         "The lexical rules are those of DESIGN Appendix B."),
+ "C14": ("bounded-exhaustive + random + grammar-based generation; invariant over the parser's logical lines",
+         "Exploration: every 3-lexeme sequence, pairs x separators, random arbitrary inputs (ordering/coverage clauses) and grammar-derived programs (parent and end-of-file clauses).",
+         "Well-formed = derived from the harness grammar."),
+ "C15": ("random generation of inputs x cursor lists; metamorphic (with/without cursors) + position oracle via token correspondence",
+         "Exploration: arbitrary inputs, seeds, 65 535-byte boundary lines and grammar-derived programs x configurations x cursor lists (token starts/interiors/ends, blanks, end, past the end).",
+         "Clause 3 is asserted only when input and output scan to the same token kinds; nothing is asserted inside blanks beyond bounds."),
 }
 
 NOT_YET = {}
